@@ -37,7 +37,7 @@ Lemma split_lines_err lines : forall st ys e,
   split_lines st lines = (ys, Some e) -> e = ParserError \/ e = IndentationError.
 Proof.
   induction lines as [|l lines IH]; intros st ys e; cbn [split_lines].
-  - destruct (unmatched st =? 0); intros H; inversion H; auto.
+  - destruct (negb (complete st)); [intros H; inversion H; auto|]. destruct (unmatched st =? 0); intros H; inversion H; auto.
   - destruct (split_step st l) eqn:E.
     + apply IH.
     + destruct (split_lines st0 lines) as [ys' e'] eqn:E2. intros H; inversion H; subst. eapply IH; eauto.
@@ -144,3 +144,23 @@ Proof.
 Qed.
 Lemma stmt_ok_eq_or_fence s : stmt_ok s = true -> has_char "=" s = true \/ has_fence_match s = true.
 Proof. apply stmt_ok_from_eq_or_fence. Qed.
+
+(* 85765d5: when the iteration ends without an exception, no verbatim fence is open and no bracket is open *)
+Lemma split_lines_ok_closed lines : forall st ys,
+  split_lines st lines = (ys, None) -> exists stf, final_state st lines = Some stf /\ unmatched stf = 0 /\ complete stf = true.
+Proof.
+  induction lines as [|l lines IH]; intros st ys; cbn [split_lines final_state].
+  - destruct (complete st) eqn:Ec; cbn [negb]; [|discriminate].
+    destruct (unmatched st =? 0) eqn:Eu; [|discriminate]. intros _. exists st. split; [reflexivity|]. split; [apply Nat.eqb_eq, Eu|exact Ec].
+  - destruct (split_step st l) as [st'|eq st'|e]; [apply IH| |discriminate].
+    destruct (split_lines st' lines) as [ys' e'] eqn:E2. intros H; inversion H; subst. eapply IH; eauto.
+Qed.
+(* … and an open fence at the end of the input is always a ParserError (whatever was yielded before) *)
+Lemma split_lines_open_fence lines : forall st stf,
+  final_state st lines = Some stf -> complete stf = false -> snd (split_lines st lines) = Some ParserError.
+Proof.
+  induction lines as [|l lines IH]; intros st stf; cbn [split_lines final_state].
+  - intros H Hc; inversion H; subst. rewrite Hc. reflexivity.
+  - destruct (split_step st l) as [st'|eq st'|e]; [apply IH| |discriminate].
+    intros H Hc. destruct (split_lines st' lines) as [ys' e'] eqn:E2. cbn [snd]. rewrite <- (IH _ _ H Hc), E2. reflexivity.
+Qed.
